@@ -319,12 +319,17 @@ func (t *TaskManager) waitForQuery(qid uint64, interrupt <-chan struct{}, closin
 		t.queryError(qid, err)
 	case <-timerCh:
 		if t.LogTimedoutQueries {
-			t.Logger.Warn(
-				"query killed for exceeding timeout limit",
-				zap.String("query", t.queries[qid].query),
-				zap.String("database", t.queries[qid].database),
-				zap.String("timeout", prettyTime(t.QueryTimeout).String()),
-			)
+			t.mu.RLock()
+			task := t.queries[qid]
+			t.mu.RUnlock()
+			if task != nil {
+				t.Logger.Warn(
+					"query killed for exceeding timeout limit",
+					zap.String("query", task.query),
+					zap.String("database", task.database),
+					zap.String("timeout", prettyTime(t.QueryTimeout).String()),
+				)
+			}
 		}
 		t.queryError(qid, ErrQueryTimeoutLimitExceeded)
 	case <-interrupt:
